@@ -570,3 +570,17 @@ func lastStoreBefore(a *ssa.Alloc, at ssa.Instruction) *ssa.Store {
 	}
 	return nil
 }
+
+// minMaxCall recognises the builtin min/max (Go 1.21) so that rules written against the
+// compare-and-assign spelling accept the builtin one: it returns the operands and whether it is min.
+func minMaxCall(v ssa.Value) (args []ssa.Value, isMin bool, ok bool) {
+	c, isCall := strip(v).(*ssa.Call)
+	if !isCall {
+		return nil, false, false
+	}
+	bi, isB := c.Call.Value.(*ssa.Builtin)
+	if !isB || (bi.Name() != "min" && bi.Name() != "max") {
+		return nil, false, false
+	}
+	return c.Call.Args, bi.Name() == "min", true
+}
